@@ -253,6 +253,9 @@ func runC03(c *run.Ctx) {
 		{Name: "data-images", Base: "new", Calls: []C{attrsOn([]string{"src", "title"}, "", "img", "audio", "source", "input"), attrsOn([]string{"href"}, "", "a"), {Op: "AllowDataURIImages"}, opt("AllowRelativeURLs", false)}},
 		{Name: "data-images-ugc-rw", Base: "ugc", Calls: []C{{Op: "AllowDataURIImages"}, {Op: "RewriteSrc", Fn: "proxy"}}},
 		specByName("cmd-email"), specByName("ugc"),
+		// the data scheme allowed like any other scheme (no image check)
+		{Name: "data-scheme-plain", Base: "new", Calls: []C{attrsOn([]string{"src", "title"}, "", "img", "audio", "source", "input"), attrsOn([]string{"href"}, "", "a"),
+			{Op: "AllowURLSchemes", Names: []string{"http", "data"}}, opt("AllowRelativeURLs", false)}},
 	})
 	dataAl := dataURIFrags
 	kdat := 4
